@@ -35,6 +35,7 @@ type Program struct {
 	defNested   map[string]bool
 	capSorts    []Sort
 	cloMaps     []*types.Map
+	inlCache    map[*ssa.Function]bool
 }
 
 func loadProgram(repo string) (*Program, error) {
